@@ -686,11 +686,15 @@ def case_small(ctx, member, text, tag, claim=True, stdin=None):
     ctx.write('s.asm', text)
     r = ctx.run('asl', ['s.asm', '-o', 'x.p', '-q'], env=ASL_ENV if claim else ASL_ENV_NOCLAIM, timeout=20 if claim else 40, retry=claim,
                 stdin=b'' if stdin is None else stdin)
+    if r.timed_out and claim and len(text) < 4096 and getattr(r, 'cpu', 0) < 30:
+        # the process did not get the processor for long enough (overloaded machine): no verdict
+        out.inconc('timeout: asl %s starved (%.0f CPU seconds in 100 s)' % (tag, getattr(r, 'cpu', 0)))
+        return
     if r.timed_out and claim and len(text) < 4096:
         # neither 20 s nor the second run with 100 s sufficed for a source of a few lines that contains no loop construct and no large
         # count, while the line budget (which counts source lines, not time) was not exhausted: one statement does not return
         show = text if isinstance(text, str) else repr(text[:300])
-        out.violate('hang:asl:statement-does-not-return', '%s: source %r: no exit within 20 s and 100 s' % (tag, show[:400]))
+        out.violate('hang:asl:statement-does-not-return', '%s: source %r: no exit within 20 s and 100 s (%.0f CPU seconds used)' % (tag, show[:400], r.cpu))
         return
     key = judge_asl(out, r, tag, claim_termination=claim)
     if key:
